@@ -5,6 +5,7 @@ import (
 	"encoding/hex"
 	"encoding/json"
 	"fmt"
+	"math/big"
 	"os"
 	"os/exec"
 	"strings"
@@ -256,8 +257,15 @@ func c12Scenarios(tier string) []*world.Scenario {
 			out = append(out, c12Scenario(fmt.Sprintf("corpus%d-prefix", ci), append([]byte{}, req[:p]...), nil))
 		}
 		for _, f := range fields(req) {
-			for _, v := range c12FieldValues {
-				if req[f[0]-1] == '*' && v == "2147483648" {
+			vals := append([]string{}, c12FieldValues...)
+			// lengths that wrap around 2^64 to exactly the genuine value (and twice around)
+			if orig, ok := new(big.Int).SetString(string(req[f[0]:f[1]]), 10); ok {
+				two64 := new(big.Int).Lsh(big.NewInt(1), 64)
+				vals = append(vals, new(big.Int).Add(two64, orig).String(), new(big.Int).Add(new(big.Int).Lsh(two64, 1), orig).String(),
+					new(big.Int).Add(new(big.Int).Lsh(big.NewInt(1), 63), orig).String(), new(big.Int).Add(new(big.Int).Lsh(big.NewInt(1), 32), orig).String())
+			}
+			for _, v := range vals {
+				if req[f[0]-1] == '*' && (v == "2147483648" || (len(v) == 10 && v > "0001048576")) {
 					continue // array counts that pre-size gigabytes are run in the address-space-limited child (bomb family)
 				}
 				m := append(append(append([]byte{}, req[:f[0]]...), v...), req[f[1]:]...)
